@@ -62,7 +62,7 @@ def run(ctx, chk):
     try:
         out, idx = facts.build(src=fx)
     except facts.FactError as e:
-        chk.fail("C12/compiles", "derive_grid", "the generated well-formed structs do not compile with the macro: %s" % str(e)[-1500:],
+        chk.fail("C12/compiles", "derive_grid", "the generated well-formed structs do not compile with the macro: %s" % str(e)[-2600:],
                  key="C12/compiles|derive_grid")
         return
     grid = mirlite.Crate(facts.load(out, idx, "derive_grid", "rlib"))
@@ -124,8 +124,8 @@ def run(ctx, chk):
     chk.analysed["rows"] = n_rows
     chk.analysed["distinct_row_shapes"] = len(shapes)
     chk.analysed["fixture"] = fx
-    chk.floor("generated structs validated", n_structs, 140 if mode == "quick" else 1500)
-    chk.floor("rows validated", n_rows, 200 if mode == "quick" else 2500)
+    chk.floor("generated structs validated", n_structs, 140 if mode == "quick" else 2600)
+    chk.floor("rows validated", n_rows, 200 if mode == "quick" else 3600)
 
 
 def shape_of(rows):
